@@ -32,8 +32,10 @@ HELPERS = [
     {"cls": "SMA", "params": {"period": 5}, "common": {}},
     {"cls": "MACD", "params": {"fast_period": 2, "slow_period": 4, "signal_period": 2}, "common": {}},
     {"cls": "BBANDS", "params": {"period": 4}, "common": {}},
+    {"cls": "Supertrend", "params": {"period": 3, "multiplier": 1.0}, "common": {}},
 ]
-HELPER_NAMES = ["EMA_3", "SMA_5", "MACD_2_4_2.MACD", "MACD_2_4_2.signal", "BBANDS_4.BBM", "BBANDS_4.BBU"]
+HELPER_NAMES = ["EMA_3", "SMA_5", "MACD_2_4_2.MACD", "MACD_2_4_2.signal", "BBANDS_4.BBM", "BBANDS_4.BBU",
+                "Supertrend_3.long", "Supertrend_3.short", "Supertrend_3.long"]
 MISSING = "no_such_reading"
 
 
